@@ -27,6 +27,10 @@ def render_all(built, init, cycles, kind, add_reset):
         pyrtl.output_verilog_testbench(buf, tr, vcd=None, add_reset=add_reset, block=blk)
         out['testbench'] = buf.getvalue()
         buf = io.StringIO()
+        # the skeleton a user asks for before there is any trace
+        pyrtl.output_verilog_testbench(buf, None, vcd=None, add_reset=add_reset, block=blk)
+        out['testbench_bare'] = buf.getvalue()
+        buf = io.StringIO()
         tr.print_vcd(buf)
         out['vcd'] = buf.getvalue()
         for base in (10, 16):
